@@ -1527,3 +1527,149 @@ def raw_programs():
         (dict(kind="raw", name="value parameter handed on by Referenz inside the argument of another call"),
          dict(raw=NESTED_CALL, expected=NESTED_CALL_EXPECTED, name="value parameter handed on by Referenz inside a nested call")),
     ]
+
+
+# ---- value parameters of generic / monomorphic callees, in the same / an imported module, called directly / from inside
+# ---- another (generic) function; the caller always passes a LOCAL variable (only those are lent at -O 2) -------------
+GP_TYPES = {
+    "ZL": dict(mono=("Zahlen Liste", "Zahlen Listen Referenz", "Zahl", "eine Zahlen Liste"), gen=("T Liste", "T Listen Referenz", "T", "eine T Liste"),
+               decl="Die Zahlen Liste", lit="eine Liste, die aus 1, 2, 3 besteht", x="9", val=[1, 2, 3], xv=9),
+    "TL": dict(mono=("Text Liste", "Text Listen Referenz", "Text", "eine Text Liste"), gen=("T Liste", "T Listen Referenz", "T", "eine T Liste"),
+               decl="Die Text Liste", lit='eine Liste, die aus "a", "b", "c" besteht', x='"X"', val=["a", "b", "c"], xv="X"),
+    "TX": dict(mono=("Text", "Text Referenz", "Text", "einen Text"), gen=("T", "T Referenz", "T", "ein T"),
+               decl="Der Text", lit='"abc"', x='"X"', val="abc", xv="X"),
+    "KP": dict(mono=("ZPaar", "ZPaar Referenz", "Zahl", "ein ZPaar"), gen=("T-Paar", "T-Paar Referenz", "T", "ein T-Paar"),
+               decl=None, lit=None, x="9", val=(1, [1, 2, 3]), xv=9),
+}
+GP_FORMS = {"ZL": ("assign", "index", "compound", "refcall", "ret"), "TL": ("assign", "index", "compound", "refcall", "ret"),
+            "TX": ("assign", "compound", "refcall", "ret"), "KP": ("field", "index", "compound", "refcall", "ret")}
+
+
+def gp_mutate(ty, form, v, x):
+    """value semantics of the mutation forms"""
+    if ty == "KP":
+        e, r = v
+        return {"field": (x, r), "index": (e, [x] + r[1:]), "compound": (e, r + [x]), "refcall": (x, r), "ret": (x, r)}[form]
+    if ty == "TX":
+        return {"assign": x, "compound": v + x, "refcall": v + x, "ret": v + x}[form]
+    return {"assign": [x], "index": [x] + v[1:], "compound": v + [x], "refcall": v + [x], "ret": [x] + v[1:]}[form]
+
+
+def gp_show(ty, v):
+    if ty == "ZL":
+        return "".join("%d " % z for z in v) + "|"
+    if ty == "TL":
+        return "".join(t + "," for t in v) + "|"
+    if ty == "TX":
+        return v + "|"
+    return "%d;" % v[0] + "".join("%d " % z for z in v[1]) + "|"
+
+
+def generic_param_program(ty, flavour, placement, path):
+    """one program: every mutation form of GP_FORMS[ty] as its own callee. Returns (meta, raw program) or None."""
+    if ty == "KP" and path == "via":
+        return None
+    t = GP_TYPES[ty]
+    LT, LR, ET, RET = t["gen" if flavour == "generic" else "mono"]
+    pub = "öffentliche " if placement == "module" else ""
+    gen = "generische " if flavour == "generic" else ""
+    lib = []
+    if ty == "KP":
+        if flavour == "generic":
+            lib.append('Wir nennen die %sgenerische Kombination aus\n\tdem %sT erstes,\n\tder %sT Liste rest,\nein Paar, und erstellen sie so:\n\t"Paar(<erstes>, <rest>)"\n'
+                       % (pub, "öffentlichen " if pub else "", "öffentlichen " if pub else ""))
+        else:
+            lib.append('Wir nennen die %sKombination aus\n\tder %sZahl erstes mit Standardwert 0,\n\tder %sZahlen Liste rest mit Standardwert eine leere Zahlen Liste,\nein ZPaar, und erstellen sie so:\n\t"Paar(<erstes>, <rest>)"\n'
+                       % (pub, "öffentlichen " if pub else "", "öffentlichen " if pub else ""))
+    # the writer: changes its Referenz parameter
+    if ty == "KP":
+        wbody = "\tSpeichere x in erstes von r."
+    else:
+        wbody = "\tSpeichere r verkettet mit x in r."
+    lib.append('Die %s%sFunktion schreiber mit den Parametern r und x vom Typ %s und %s, gibt nichts zurück, macht:\n%s\nUnd kann so benutzt werden:\n\t"lass <x> in <r> schreiben"\n'
+               % (pub, gen, LR, ET, wbody))
+    for form in GP_FORMS[ty]:
+        if form == "assign":
+            body = "\tSpeichere x in p." if ty == "TX" else "\tSpeichere (eine Liste, die aus x besteht) in p."
+        elif form == "index":
+            body = "\tSpeichere x in rest von p an der Stelle 1." if ty == "KP" else "\tSpeichere x in p an der Stelle 1."
+        elif form == "field":
+            body = "\tSpeichere x in erstes von p."
+        elif form == "compound":
+            body = "\tSpeichere (rest von p) verkettet mit x in rest von p." if ty == "KP" else "\tSpeichere p verkettet mit x in p."
+        elif form == "refcall":
+            body = "\tlass x in p schreiben."
+        else:
+            body = None
+        lib.append('Die %s%sFunktion kern_%s mit den Parametern p und x vom Typ %s und %s, gibt %s zurück, macht:\n%s\tGib p zurück.\nUnd kann so benutzt werden:\n\t"kern_%s <p> <x>"\n'
+                   % (pub, gen, form, LT, ET, RET, (body + "\n") if body else "", form))
+        if path == "via":
+            decl = ("Die %s" % LT) if ty != "TX" else ("Das T" if flavour == "generic" else "Der Text")
+            after = ""
+            if form == "ret":
+                after = "\tSpeichere erg verkettet mit x in erg.\n" if ty == "TX" else "\tSpeichere x in erg an der Stelle 1.\n"
+            lib.append('Die %s%sFunktion huelle_%s mit den Parametern q und x vom Typ %s und %s, gibt %s zurück, macht:\n\t%s lokal ist q.\n\t%s erg ist kern_%s lokal x.\n%s\tGib erg verkettet mit lokal zurück.\nUnd kann so benutzt werden:\n\t"huelle_%s <q> <x>"\n'
+                       % (pub, gen, form, LT, ET, RET, decl, decl, form, after, form))
+    show = {
+        "ZL": 'Die Funktion zeigeW mit dem Parameter l vom Typ Zahlen Liste, gibt nichts zurück, macht:\n\tFür jede Zahl z in l, mache:\n\t\tSchreibe z.\n\t\tSchreibe \' \'.\n\tSchreibe \'|\'.\nUnd kann so benutzt werden:\n\t"zeige <l>"\n',
+        "TL": 'Die Funktion zeigeW mit dem Parameter l vom Typ Text Liste, gibt nichts zurück, macht:\n\tFür jeden Text z in l, mache:\n\t\tSchreibe z.\n\t\tSchreibe \',\'.\n\tSchreibe \'|\'.\nUnd kann so benutzt werden:\n\t"zeige <l>"\n',
+        "TX": 'Die Funktion zeigeW mit dem Parameter l vom Typ Text, gibt nichts zurück, macht:\n\tSchreibe l.\n\tSchreibe \'|\'.\nUnd kann so benutzt werden:\n\t"zeige <l>"\n',
+        "KP": 'Die Funktion zeigeW mit dem Parameter l vom Typ %s, gibt nichts zurück, macht:\n\tSchreibe (erstes von l).\n\tSchreibe \';\'.\n\tFür jede Zahl z in (rest von l), mache:\n\t\tSchreibe z.\n\t\tSchreibe \' \'.\n\tSchreibe \'|\'.\nUnd kann so benutzt werden:\n\t"zeige <l>"\n' % ("Zahl-Paar" if flavour == "generic" else "ZPaar"),
+    }[ty]
+    # the caller: a function with local variables
+    sz = []
+    exp = []
+    n = 0
+    for form in GP_FORMS[ty]:
+        n += 1
+        a, bvar = "a%d" % n, "b%d" % n
+        if ty == "KP":
+            kt = "Das Zahl-Paar" if flavour == "generic" else "Das ZPaar"
+            sz.append("\tDie Zahlen Liste r%d ist eine Liste, die aus 1, 2, 3 besteht." % n)
+            sz.append("\t%s %s ist Paar(1, r%d)." % (kt, a, n))
+            dl = kt
+        else:
+            dl = t["decl"]
+            sz.append("\t%s %s ist %s." % (dl, a, t["lit"]))
+        v = t["val"]
+        mv = gp_mutate(ty, form, v, t["xv"])
+        if path == "direct":
+            sz.append("\t%s %s ist kern_%s %s %s." % (dl, bvar, form, a, t["x"]))
+            if form == "ret":
+                if ty == "TX":
+                    sz.append("\tSpeichere %s verkettet mit %s in %s." % (bvar, t["x"], bvar))
+                elif ty == "KP":
+                    sz.append("\tSpeichere %s in erstes von %s." % (t["x"], bvar))
+                else:
+                    sz.append("\tSpeichere %s in %s an der Stelle 1." % (t["x"], bvar))
+            exp_b = mv
+        else:
+            sz.append("\t%s %s ist huelle_%s %s %s." % (dl, bvar, form, a, t["x"]))
+            exp_b = mv + v
+        sz.append("\tzeige %s." % a)
+        sz.append("\tzeige %s." % bvar)
+        exp.append(gp_show(ty, v) + gp_show(ty, exp_b))
+    szene = 'Die Funktion szene mit dem Parameter n vom Typ Zahl, gibt nichts zurück, macht:\n%s\nUnd kann so benutzt werden:\n\t"szene <n>"\n' % "\n".join(sz)
+    head = 'Binde "Duden/Ausgabe" ein.\n'
+    files = {}
+    if placement == "module":
+        files["@MOD@"] = "\n".join(lib)
+        src = head + 'Binde "@MOD@" ein.\n\n' + show + "\n" + szene + "\nszene 1.\n"
+    else:
+        src = head + "\n" + "\n".join(lib) + "\n" + show + "\n" + szene + "\nszene 1.\n"
+    name = "value parameters of %s callees (%s), %s, called %s" % (
+        flavour, {"ZL": "T Liste = Zahlen Liste", "TL": "T Liste = Text Liste", "TX": "T = Text", "KP": "T-Paar = Zahl-Paar"}[ty] if flavour == "generic" else ty,
+        "imported module" if placement == "module" else "same module", "directly" if path == "direct" else "from inside another function")
+    return (dict(kind="raw", name=name, gp=(ty, flavour, placement, path)), dict(raw=src, expected="".join(exp), name=name, files=files))
+
+
+def generic_param_programs():
+    out = []
+    for ty in ("ZL", "TL", "TX", "KP"):
+        for flavour in ("generic", "mono"):
+            for placement in ("same", "module"):
+                for path in ("direct", "via"):
+                    r = generic_param_program(ty, flavour, placement, path)
+                    if r:
+                        out.append(r)
+    return out
